@@ -230,13 +230,28 @@ def run_go2coq(log):
         os.makedirs(tmp)
         rc, out, _ = sh([binp, "-repo", REPO, "-out", tmp], env=GOENV, timeout=120)
         log.append(f"== {d}\n" + out)
+        ownp = os.path.join(WORK, "gen_owner.json")
+        owner = json.load(open(ownp)) if os.path.exists(ownp) else {}
         if rc != 0:
-            ok = False
-            msgs.append(f"{d} failed: " + out[-1500:])
+            # the tables this translator owns can no longer be derived from the source: remove them, so that
+            # exactly the properties whose proofs depend on them stop building (and no other property is affected)
+            if d in owner:
+                for f in owner[d]:
+                    for ext in (".v", ".vo", ".glob", ".vok", ".vos"):
+                        try:
+                            os.remove(os.path.join(COQ, "Gen", f[:-2] + ext))
+                        except OSError:
+                            pass
+                msgs.append(f"{d} failed (its tables {owner[d]} were removed): " + " ".join(out.split())[-600:])
+            else:
+                ok = False
+                msgs.append(f"{d} failed: " + out[-1500:])
             continue
-        for f in os.listdir(tmp):
-            if f.endswith(".v"):
-                write_if_changed(os.path.join(COQ, "Gen", f), open(os.path.join(tmp, f)).read())
+        files = sorted(f for f in os.listdir(tmp) if f.endswith(".v"))
+        for f in files:
+            write_if_changed(os.path.join(COQ, "Gen", f), open(os.path.join(tmp, f)).read())
+        owner[d] = files
+        json.dump(owner, open(ownp, "w"))
         msgs.append(f"{d}: " + " ".join(out.split())[:300])
     return ok, "; ".join(msgs)
 
